@@ -9,6 +9,7 @@ import (
 	"fmt"
 	"math"
 	"os"
+	"reflect"
 	"runtime"
 	"strings"
 	"sync"
@@ -235,3 +236,90 @@ func Run(v []Ent, timeout time.Duration, f func()) (outcome string, detail strin
 // recorder). Natively the harness parses the recorded response body instead.
 func JSONCount() int      { return 0 }
 func JSONValue(k int) any { return nil }
+
+// DeepEqualIgnoring is reflect.DeepEqual except that any value whose named
+// type is called typeName compares equal (used to compare syntax trees
+// regardless of source positions).
+func DeepEqualIgnoring(a, b any, typeName string) bool {
+	return deepEqIgn(reflect.ValueOf(a), reflect.ValueOf(b), typeName, map[[2]uintptr]bool{})
+}
+
+func deepEqIgn(x, y reflect.Value, ign string, seen map[[2]uintptr]bool) bool {
+	if !x.IsValid() || !y.IsValid() {
+		return x.IsValid() == y.IsValid()
+	}
+	if x.Type() != y.Type() {
+		return false
+	}
+	if x.Type().Name() == ign {
+		return true
+	}
+	switch x.Kind() {
+	case reflect.Struct:
+		for k := 0; k < x.NumField(); k++ {
+			if !deepEqIgn(x.Field(k), y.Field(k), ign, seen) {
+				return false
+			}
+		}
+		return true
+	case reflect.Array:
+		for k := 0; k < x.Len(); k++ {
+			if !deepEqIgn(x.Index(k), y.Index(k), ign, seen) {
+				return false
+			}
+		}
+		return true
+	case reflect.Pointer:
+		if x.IsNil() || y.IsNil() {
+			return x.IsNil() == y.IsNil()
+		}
+		if x.Pointer() == y.Pointer() {
+			return true
+		}
+		key := [2]uintptr{x.Pointer(), y.Pointer()}
+		if seen[key] {
+			return true
+		}
+		seen[key] = true
+		return deepEqIgn(x.Elem(), y.Elem(), ign, seen)
+	case reflect.Slice:
+		if x.IsNil() != y.IsNil() || x.Len() != y.Len() {
+			return false
+		}
+		for k := 0; k < x.Len(); k++ {
+			if !deepEqIgn(x.Index(k), y.Index(k), ign, seen) {
+				return false
+			}
+		}
+		return true
+	case reflect.Interface:
+		if x.IsNil() || y.IsNil() {
+			return x.IsNil() == y.IsNil()
+		}
+		return deepEqIgn(x.Elem(), y.Elem(), ign, seen)
+	case reflect.Map:
+		if x.IsNil() != y.IsNil() || x.Len() != y.Len() {
+			return false
+		}
+		for _, k := range x.MapKeys() {
+			v2 := y.MapIndex(k)
+			if !v2.IsValid() || !deepEqIgn(x.MapIndex(k), v2, ign, seen) {
+				return false
+			}
+		}
+		return true
+	case reflect.Func, reflect.Chan:
+		return x.IsNil() && y.IsNil()
+	case reflect.Bool:
+		return x.Bool() == y.Bool()
+	case reflect.Int, reflect.Int8, reflect.Int16, reflect.Int32, reflect.Int64:
+		return x.Int() == y.Int()
+	case reflect.Uint, reflect.Uint8, reflect.Uint16, reflect.Uint32, reflect.Uint64, reflect.Uintptr:
+		return x.Uint() == y.Uint()
+	case reflect.Float32, reflect.Float64:
+		return x.Float() == y.Float()
+	case reflect.String:
+		return x.String() == y.String()
+	}
+	panic("DeepEqualIgnoring: unsupported kind " + x.Kind().String())
+}
